@@ -26,8 +26,8 @@ Qed.
 (* Tree (RBTree.v): a raising step (KeyError of get/rem on an absent key, FormatError of resize to n > 0)
    returns the tree it was given, for every comparison function and every tree *)
 From CelloV Require RBTree.
-Lemma tree_step_raise_unchanged (K V : Type) (cmp : K -> K -> comparison) (t t' : RBTree.rbt K V) o e :
-  RBTree.t_step K V cmp t o = (t', RBTree.ORaise V e) -> t' = t.
+Lemma tree_step_raise_unchanged (K V : Type) (cmp : K -> K -> comparison) (us : bool -> bool -> bool) (t t' : RBTree.rbt K V) o e :
+  RBTree.t_step K V cmp us t o = (t', RBTree.ORaise V e) -> t' = t.
 Proof.
   destruct o as [k v|k|k|k|n| |kvs]; unfold RBTree.t_step, RBTree.lift; intros H;
     repeat (match type of H with context [match ?x with _ => _ end] => destruct x end);
